@@ -57,6 +57,8 @@ pub struct RunState {
     pub recorded_ops: Vec<Op>,
     wakers: Vec<Arc<CountWaker>>,
     pub shutdown_called: bool,
+    /// kept acknowledgements in the order their calls returned (addressed by `Poll{slot}`)
+    global_slots: Vec<(AckId, Ack)>,
 }
 
 thread_local! {
@@ -86,6 +88,11 @@ pub fn items_since(from: u64) -> Vec<Item> {
             })
             .collect()
     })
+}
+
+/// Reach probe recorded by harness-side checkers (goes into the run's probe table).
+pub fn probe_run(name: &'static str) {
+    sim::probe(name);
 }
 
 pub fn seq() -> u64 {
@@ -218,8 +225,13 @@ pub fn build_cache(cfg: &Cfg) -> Cache {
 /// Online driver (SEQ / EDGE families): draws the next operation from the reference model's state
 /// and checks the cache against the model after every operation.
 pub trait Online {
+    /// Called once right after the cache was built (the getrandom stream has been re-seeded to the
+    /// value it had before `CacheD::new`, so an identically keyed doorkeeper mirror can be built).
+    fn start(&mut self, _cache: &Cache) {}
     /// `None` ends the program.
     fn next_op(&mut self, step: usize) -> Option<Op>;
+    /// Called right before the operation is executed (extra observations, e.g. estimates).
+    fn before_op(&mut self, _op: &Op, _cache: &Cache) {}
     /// Called after the operation (and its await) completed; may use the cache for extra
     /// observations (reads, snapshots) and reports violations through `exec::violation`.
     fn after_op(&mut self, op: &Op, step: usize, cache: &Cache);
@@ -238,26 +250,35 @@ fn now_dur() -> Dur {
     Dur::from_std(sim::now())
 }
 
+/// waker id logged for polls made by `block_on` with the simulated task's own waker
+pub const TASK_WAKER: usize = usize::MAX;
+
 pub fn await_ack(ack: &Ack, id: AckId, by: usize) -> St {
     // count pending polls by polling by hand under shuttle's own waker via block_on
     struct Counting<'a> {
         ack: &'a Ack,
         pending_polls: u32,
+        id: AckId,
+        by: usize,
     }
     impl Future for Counting<'_> {
         type Output = (St, u32);
         fn poll(mut self: Pin<&mut Self>, cx: &mut Context<'_>) -> Poll<Self::Output> {
             let mut h = self.ack.handle();
             match Pin::new(&mut h).poll(cx) {
-                Poll::Ready(s) => Poll::Ready((St::from(s), self.pending_polls)),
+                Poll::Ready(s) => {
+                    log(Item::Polled { ack: self.id, by: self.by, waker: TASK_WAKER, res: Some(St::from(s)) });
+                    Poll::Ready((St::from(s), self.pending_polls))
+                }
                 Poll::Pending => {
+                    log(Item::Polled { ack: self.id, by: self.by, waker: TASK_WAKER, res: None });
                     self.pending_polls += 1;
                     Poll::Pending
                 }
             }
         }
     }
-    let (st, polls) = shuttle::future::block_on(Counting { ack, pending_polls: 0 });
+    let (st, polls) = shuttle::future::block_on(Counting { ack, pending_polls: 0, id, by });
     log(Item::AckObserved { ack: id, by, st, polls });
     st
 }
@@ -422,10 +443,11 @@ pub fn exec_op(cache: &Cache, ctx: &mut ThreadCtx, i: usize, op: &Op, shards: us
             Res::Unit
         }
         Op::Poll { slot, waker } => {
-            if let Some((wi, ack)) = ctx.slots.get(*slot).cloned() {
+            let target = RUN.with(|r| r.borrow().global_slots.get(*slot).cloned());
+            if let Some((id, ack)) = target {
                 let w = counting_waker(*waker);
                 let r = poll_once(&ack, &w);
-                log(Item::Polled { ack: (t, wi), by: t, waker: *waker, res: r });
+                log(Item::Polled { ack: id, by: t, waker: *waker, res: r });
             }
             Res::Unit
         }
@@ -446,9 +468,11 @@ pub fn exec_op(cache: &Cache, ctx: &mut ThreadCtx, i: usize, op: &Op, shards: us
             }
             Wait::Later => {
                 ctx.pending.push((i, ack.clone()));
+                RUN.with(|r| r.borrow_mut().global_slots.push(((t, i), ack.clone())));
                 ctx.slots.push((i, ack));
             }
             Wait::Never => {
+                RUN.with(|r| r.borrow_mut().global_slots.push(((t, i), ack.clone())));
                 ctx.slots.push((i, ack));
             }
         }
@@ -521,6 +545,10 @@ pub fn body() {
 
     let cache = Arc::new(build_cache(&sc.cfg));
     let shards = sc.cfg.shards;
+    if let Some(drv) = online.as_mut() {
+        getrandom::sim_reseed(sc.salt ^ 0x6765_7472_616e_646f);
+        drv.start(&cache);
+    }
     log(Item::Phase("run".into()));
 
     let mut leftovers: Vec<(usize, usize, Ack)> = vec![];
@@ -536,6 +564,7 @@ pub fn body() {
         let mut step = 0usize;
         while let Some(op) = drv.next_op(step) {
             RUN.with(|r| r.borrow_mut().recorded_ops.push(op.clone()));
+            drv.before_op(&op, &cache);
             exec_op(&cache, &mut ctx, step, &op, shards);
             drv.after_op(&op, step, &cache);
             step += 1;
@@ -621,7 +650,11 @@ pub fn body() {
             })
             .collect()
     });
-    RUN.with(|r| r.borrow_mut().keep.clear());
+    RUN.with(|r| {
+        let mut r = r.borrow_mut();
+        r.keep.clear();
+        r.global_slots.clear();
+    });
     drop(cache);
     crossbeam_channel::sim_ticks::drop_ticks();
     PROBES.with(|p| *p.borrow_mut() = sim::probes());
